@@ -204,6 +204,11 @@ impl Allocator {
     #[cfg(feature = "gc_stress")]
     self.collect_garbage_with_value(context, reference);
 
+    #[cfg(feature = "verif")]
+    if crate::verif::gc_decision() == crate::verif::GcDecision::Collect {
+      self.collect_garbage_with_value(context, reference);
+    }
+
     if self.bytes_allocated > self.next_gc {
       self.collect_garbage_with_value(context, reference);
     }
@@ -233,6 +238,11 @@ impl Allocator {
 
     #[cfg(feature = "gc_stress")]
     self.collect_garbage_with_value(context, obj);
+
+    #[cfg(feature = "verif")]
+    if crate::verif::gc_decision() == crate::verif::GcDecision::Collect {
+      self.collect_garbage_with_value(context, obj);
+    }
 
     if self.bytes_allocated > self.next_gc {
       self.collect_garbage_with_value(context, obj);
@@ -353,6 +363,11 @@ impl Allocator {
   fn sweep_obj_heap(&mut self) -> usize {
     #[cfg(feature = "gc_stress")]
     return self.sweep_obj_full();
+
+    #[cfg(feature = "verif")]
+    if crate::verif::gc_force_full() {
+      return self.sweep_obj_full();
+    }
 
     #[cfg(not(feature = "gc_stress"))]
     if self.gc_count % 10 == 0 {
